@@ -466,6 +466,14 @@ class EvalMixin:
                 return [Res(st, self.new_list(st, z3.Concat(sa, sb), a.h))]
             if a.k == "seqe" and b.k == "seqe":
                 return [Res(st, SV("seqe", z3.Concat(a.t, b.t)))]
+            if not st.spec and ((a.k in ("str", "bytes") and b.k == "val") or (b.k in ("str", "bytes") and a.k == "val")):
+                # text + dynamic value: concatenation if the value is text of the same kind, TypeError otherwise
+                txt, dyn = (a, b) if b.k == "val" else (b, a)
+                tester, acc = (Val.is_StrV, Val.sv) if txt.k == "str" else (Val.is_BytesV, Val.yv)
+                def kcat(s2):
+                    d = SV(txt.k, acc(dyn.t))
+                    return [Res(s2, SV(txt.k, z3.Concat(a.t, d.t) if b.k == "val" else z3.Concat(d.t, b.t)))]
+                return self.may_raise(st, tester(dyn.t), "TypeError", kcat)
             if a.k == "val" and b.k == "val" and not st.spec:
                 # dynamic `+`: str+str / bytes+bytes concatenate, int+int adds, anything else is a TypeError
                 out = []
@@ -760,7 +768,8 @@ class EvalMixin:
                 return [Res(st, SV("val", self.hget(st, attr, r)))]
             if attr == "__class__":
                 return [Res(st, SV("cls", self.class_of_val(obj.t)))]
-            if attr in ("keys", "items", "values", "get", "append", "update", "pop", "write", "flush"):
+            prim_attrs = set(dir(str)) | set(dir(bytes)) | set(dir(int)) | set(dir(float)) | set(dir(bool)) | set(dir(type(None)))
+            if attr not in prim_attrs:
                 # a primitive value (None, int, float, bool, str, bytes) has no such attribute; an object may
                 return self.may_raise(st, Val.is_RefV(obj.t), "AttributeError",
                                       lambda s: [Res(s, SV("val", self.hget(s, attr, Val.rv(obj.t))))])
